@@ -112,6 +112,137 @@ def _only_continue(els):
     return e.get("k") == "continue"
 
 
+def _only_break(n, label=None):
+    """`n` is just `break` of the loop labelled `label` (possibly wrapped in blocks / a trailing semicolon), no value"""
+    e = H.peel(n, refs=False)
+    while e.get("k") in ("block", "semi"):
+        if e.get("k") == "semi":
+            e = H.peel(e["e"], refs=False)
+            continue
+        items = e.get("stmts", []) + ([e["tail"]] if "tail" in e else [])
+        if len(items) != 1:
+            return False
+        e = H.peel(items[0], refs=False)
+    return e.get("k") == "break" and "e" not in e and e.get("label") in (None, label)
+
+
+def loop_parts(n):
+    """(test, negated, body nodes) of a loop whose first action is its only head test: `while C { B }` (= `loop { if C { B } else
+    { break } }`), `loop { if !C { break } B }`, `loop { if !C { break } else { B } }`. The body runs while `test` (negated: while
+    not `test`) holds. None for any other loop."""
+    if n.get("k") != "loop" or n["body"].get("k") != "block":
+        return None
+    b = n["body"]
+    items = b["stmts"] + ([b["tail"]] if "tail" in b else [])
+    if not items:
+        return None
+    first = H.peel(items[0], refs=False, blocks=False)
+    if first.get("k") != "if":
+        return None
+    lb = n.get("label")
+    tb = _only_break(first["then"], lb)
+    eb = "else" in first and _only_break(first["else"], lb)
+    if eb and not tb and len(items) == 1:
+        return first["cond"], False, [first["then"]]
+    if tb and "else" not in first:
+        return first["cond"], True, items[1:]
+    if tb and not eb and len(items) == 1:
+        return first["cond"], True, [first["else"]]
+    return None
+
+
+_FLIP = {"<": ">", ">": "<", "<=": ">=", ">=": "<=", "!=": "!=", "==": "=="}
+_NEG = {"<": ">=", ">": "<=", "<=": ">", ">=": "<", "!=": "==", "==": "!="}
+
+
+def _assigns_of(root, lid):
+    return [x for x in H.walk(root) if x.get("k") in ("assign", "assignop") and (H.place_root(x["l"])[0] or (None,))[0] == lid]
+
+
+def counted_loop(fnroot, n, parents):
+    """{"bound": N expression, "body": nodes, "counter": local id} when the loop `n` is a counting loop that runs its body exactly N
+    times, like `for _ in 0..N`:
+        let mut c = 0; while c < N { B; c += 1; }        (also `c != N`, `N > c`, negated / `loop { if c >= N { break } .. }` spellings)
+        let mut c = N; while c > 0 { B; c -= 1; }        (also `c != 0`, `0 < c`, `c >= 1`)
+    where `c` is declared in a block around the loop (no other loop or closure in between), is assigned nowhere in the function except
+    by the single step statement, which is a direct statement of B, N does not change during the loop (no local of it is assigned in
+    B, no call in it) and B has no `continue` of this loop (it would skip the step). None for anything else (the loop stays opaque)."""
+    lp = loop_parts(n)
+    if lp is None:
+        return None
+    cond, neg, body = lp
+    c0, neg2 = H.negate_peel(cond)
+    neg = neg != neg2
+    c0 = H.peel(c0, refs=False)
+    if c0.get("k") != "bin" or c0.get("op") not in _FLIP or c0.get("overloaded"):
+        return None
+    op = _NEG[c0["op"]] if neg else c0["op"]
+    for (a, b_, o) in ((c0["l"], c0["r"], op), (c0["r"], c0["l"], _FLIP[op])):
+        l = H.local_of(H.peel(a, casts=True))
+        if l is None:
+            continue
+        cid = l[0]
+        let = next((x for x in H.walk(fnroot) if x.get("k") == "let" and "init" in x and x["pat"].get("k") == "bind" and x["pat"]["id"] == cid), None)
+        if let is None or "mut" not in (let["pat"].get("mode") or "").split():
+            continue
+        # declared in a block around the loop, not outside an enclosing loop / closure
+        scoped = False
+        for q in reversed(parents):
+            if q.get("k") in ("loop", "for", "closure"):
+                break
+            if q.get("k") == "block" and any(s is let for s in q["stmts"]):
+                scoped = True
+                break
+        if not scoped:
+            continue
+        asg = _assigns_of(fnroot, cid)
+        if len(asg) != 1 or asg[0].get("k") != "assignop" or H.const_value(asg[0]["r"]) != 1 or H.local_of(asg[0]["l"]) is None:
+            continue
+        # any other mutable access of the counter (`&mut c`) makes it opaque
+        if any(x.get("k") == "ref" and x.get("mut") and H.local_of(x["e"]) and H.local_of(x["e"])[0] == cid for x in H.walk(fnroot)):
+            continue
+        step = asg[0]
+        stmts = []
+        for x in body:
+            x0 = x if x.get("k") == "block" else H.peel(x, refs=False, semi=False, blocks=False)
+            stmts.extend(x0["stmts"] + ([x0["tail"]] if "tail" in x0 else []) if x0.get("k") == "block" else [x])
+        if not any(H.peel(s, refs=False) is step for s in stmts):
+            continue
+        # no `continue` of this loop inside the body
+        def conts(x, inner):
+            k = x.get("k")
+            if k == "continue":
+                return (x.get("label") is None and not inner) or (x.get("label") is not None and x.get("label") == n.get("label"))
+            if k == "closure":
+                return False
+            inner2 = inner or k in ("loop", "for")
+            return any(conts(y, inner2) for y in H.children(x))
+        if any(conts(s, False) for s in stmts):
+            continue
+        init = let["init"]
+        zero = lambda e: H.const_value(H.peel(e, casts=True)) == 0
+        one = lambda e: H.const_value(H.peel(e, casts=True)) == 1
+        if step["op"] == "+=" and zero(init) and o in ("<", "!="):
+            bound = b_
+        elif step["op"] == "-=" and ((o in (">", "!=") and zero(b_)) or (o == ">=" and one(b_))):
+            bound = init
+        else:
+            continue
+        # the bound is fixed while the loop runs (the start value of a down-counter is evaluated once anyway)
+        fixed = True
+        for x in (H.walk(bound) if step["op"] == "+=" else ()):
+            if x.get("k") in ("call", "mcall", "closure", "assign", "assignop"):
+                fixed = False
+            if x.get("k") == "path" and x["res"].get("r") == "local":
+                for s in stmts:
+                    if _assigns_of(s, x["res"]["id"]):
+                        fixed = False
+        if not fixed:
+            continue
+        return {"bound": bound, "body": [s for s in stmts if H.peel(s, refs=False) is not step], "counter": cid}
+    return None
+
+
 class Extractor:
     """Event extraction for one function body. Events are (buffer id, item)."""
 
@@ -247,6 +378,13 @@ class Extractor:
                 return it
             return it + [(None, {"i": "rep", "body": body, "node": n, "cw": None, "count": None, "filtered": None})]
         if k == "loop":
+            # reader: a counting loop over a count read before it is the `while` spelling of `for _ in 0..count`
+            cl = counted_loop(self.fn["body"], n, self.parents.get(id(n), ())) if side == "r" else None
+            if cl is not None:
+                body = self.seq(cl["body"])
+                if not body:
+                    return []
+                return [(None, {"i": "rep", "body": body, "node": n, "cw": None, "count": None, "filtered": None, "bound": cl["bound"]})]
             body = self.walk(n["body"])
             if not body:
                 return []
@@ -1265,6 +1403,16 @@ def _is_count_of(ex, prim, rep):
             # read_vec(size closure, ..): the primitive sits inside the size closure
             a0 = H.peel(node["args"][0])
             return any(x is prim["node"] for x in H.walk(a0))
+        if rep.get("bound") is not None:
+            # counting loop (see counted_loop): the bound is the value read, directly or through a let-bound local
+            end = rep["bound"]
+            if any(x is prim["node"] for x in H.walk(end)):
+                return True
+            l = H.local_of(H.peel(end, casts=True))
+            if l:
+                init = H.let_init_of(ex.fn["body"], l[0])
+                return init is not None and any(x is prim["node"] for x in H.walk(init))
+            return False
         if rep_iter(node) is not None:
             it = H.peel(rep_iter(node))
             if it.get("k") == "struct" and (it.get("adt") or "").endswith("Range"):
